@@ -36,8 +36,11 @@ def impl(case):
     snap0 = common.enc_cfg(g, R)
     steps, outs = [], {}
 
+    _cfg._gen_nt.i = 17  # any start value (the model receives the current value at each step); never reset
+    # between stages: fresh names must stay fresh along a pipeline
+
     def step(name, inp, f, params=None):
-        _cfg._gen_nt.i = c0 = 17  # any value: the model receives it
+        c0 = _cfg._gen_nt.i
         try:
             out = f()
             steps.append({"name": name, "input": common.enc_cfg(inp, R), "params": params or {}, "ctr0": c0,
@@ -49,7 +52,6 @@ def impl(case):
             return None
 
     def public(name, f):
-        _cfg._gen_nt.i = 0
         try:
             out = f()
             outs[name] = common.enc_cfg(out, R)
